@@ -25,7 +25,7 @@ struct Ctx {
     other_msk_key: Option<UserSecretKey>,
 }
 
-fn build(rng: &mut Rng, shape: usize) -> Option<(Ctx, Vec<(String, UserSecretKey)>)> {
+fn build(rng: &mut Rng, shape: usize, pending_edits: bool) -> Option<(Ctx, Vec<(String, UserSecretKey)>)> {
     let cc = Covercrypt::default();
     let (mut msk, _) = call(|| cc.setup()).ok()?;
     {
@@ -72,6 +72,15 @@ fn build(rng: &mut Rng, shape: usize) -> Option<(Ctx, Vec<(String, UserSecretKey
         let ap = AccessPolicy::parse("D::A").ok()?;
         call(|| cc2.generate_user_secret_key(&mut m2, &ap)).ok()
     })();
+    if pending_edits {
+        // the access structure has been edited and the master key not updated yet: a refused
+        // refresh must not take that opportunity to bring the master key up to date either
+        let s = &mut msk.access_structure;
+        s.add_attribute(QualifiedAttribute::new("D", "Pending"), hint(shape % 2 == 0), None).ok()?;
+        if shape >= 2 {
+            s.add_attribute(QualifiedAttribute::new("H", "Mid"), hint(false), Some("L")).ok()?;
+        }
+    }
     let msk_bytes = ser(&msk).ok()?;
     let msk_canon = WMsk::parse(&msk_bytes).ok()?.canonical();
     Some((Ctx { cc, msk, msk_bytes, msk_canon, issued, older_msk, other_msk_key: other }, keys))
@@ -488,7 +497,7 @@ fn run_shape(shape: usize, seed: u64) -> Stats {
     let mut st = Stats::default();
     let mut rng = Rng::new(seed ^ (shape as u64).wrapping_mul(0x9E37_79B9_7F4A_7C15));
     {
-        let Some((mut ctx, keys)) = build(&mut rng, shape % 4) else {
+        let Some((mut ctx, keys)) = build(&mut rng, shape % 4, shape >= 4 && (shape / 4) % 2 == 1) else {
             st.inconclusive.push("fixture failed".into());
             return st;
         };
